@@ -183,6 +183,10 @@ def check_cli(cr, ctx):
     for pc, dest in core_destinations(fake, om):
         files = {k for k, _ in dest}
         want = pc["expect"]
+        if want == "none" and design.get("haps"):
+            # a scaffold of no haplotype in a multi-haplotype map: which FILE it lands in is not documented
+            ctx.count("cli:no-haplotype-piece-in-haplotype-map-not-judged")
+            continue
         for f in files:
             cls = next((c for pat, c in CLASS_OF_FILE if pat in f), "?")
             ok = False
@@ -210,7 +214,13 @@ def run_cli(shard, ctx):
     scratch = Path(os.environ.get("VERIF_SHARD_SCRATCH", "."))
     for i in range(shard["n"]):
         rng = rng_for(shard["seed"], "c09cli", shard["index"], i)
-        cr = cli_runs.text_case(rng, scratch / f"c{i}", fmt=rng.choice(["tpf", "agp"]), tagged=True, two_hap=(i % 3 == 2))
+        if i % 6 == 5:
+            # Primary mode AND scaffolds that belong to no haplotype (MT, unplaced): two features at once
+            cr = cli_runs.text_case(rng, scratch / f"c{i}", fmt=rng.choice(["tpf", "agp"]), tagged=True, two_hap=True, unprefixed=True, primary=True)
+            if "tag:unprefixed-scaffold-in-haplotype-map" in cr["labels"]:
+                ctx.count("cli:primary-mode-with-no-haplotype-scaffolds")
+        else:
+            cr = cli_runs.text_case(rng, scratch / f"c{i}", fmt=rng.choice(["tpf", "agp"]), tagged=True, two_hap=(i % 3 == 2))
         try:
             check_cli(cr, ctx)
         finally:
@@ -261,5 +271,6 @@ def gates(c, tier):
         "label:tag:primary": 50,
         "label:tag:haplotype-from-names-only": 50,
         "cli:ok": 15,
+        "cli:primary-mode-with-no-haplotype-scaffolds": 3,
     }
     return [f"{k}>={v} (got {c.get(k, 0)})" for k, v in need.items() if c.get(k, 0) < v]
